@@ -265,13 +265,11 @@ def configs(tier):
         out.append(dict(case='minmax', n_cond=4, n_rdm=1))
     for low, up in [(0.25, 0.75), (0.0, 1.0), (0.1, 0.5)] + ([] if quick else [(0.5, 0.9)]):
         out.append(dict(case='geotop', n_cond=3, n_rdm=1, low=low, up=up))
-    if not quick:
-        out.append(dict(case='geotop', n_cond=3, n_rdm=2, low=0.25, up=0.75))
     out.append(dict(case='geodesic', n_cond=3, n_rdm=1))
     if not quick:
         out.append(dict(case='geodesic', n_cond=3, n_rdm=2))
     for method in ['spearman', 'rho-a', 'tau-a', 'kendall']:
-        for f in ['affine', 'sqrt', 'cube'] + ([] if quick else ['rank']):
+        for f in ['affine', 'sqrt', 'cube']:
             out.append(dict(case='invariance', method=method, f=f, n_cond=3, n_rdm=1))
     out.append(dict(case='invariance', method='cosine', f='scale', n_cond=3, n_rdm=2))
     out.append(dict(case='invariance', method='cosine', f='scale', n_cond=4, n_rdm=1))
